@@ -24,6 +24,9 @@ struct Case {
     rounds: u64,
     #[serde(default)]
     verify: bool,
+    /// stop as soon as the held memory exceeds this many bytes (0 = never)
+    #[serde(default)]
+    bound: usize,
 }
 
 fn held() -> usize {
@@ -44,6 +47,7 @@ fn main() {
     let case: Case = serde_json::from_str(&txt).expect("case json");
     let rounds = case.rounds;
     let verify = case.verify;
+    let bound = case.bound;
     let peak = Arc::new(AtomicUsize::new(0));
     let corrupt = Arc::new(AtomicUsize::new(0));
     // everything allocated so far (runtime, parsed case) is the baseline demand
@@ -84,6 +88,11 @@ fn main() {
                     let h = held().wrapping_sub(base);
                     if h > local_peak && h < usize::MAX / 2 {
                         local_peak = h;
+                        if bound != 0 && h > bound {
+                            // already over the bound: report at once instead of churning on
+                            println!("{{\"peak\":{},\"base\":{},\"corrupt\":0,\"end\":{},\"round\":{}}}", h, base, h, r);
+                            std::process::exit(0);
+                        }
                     }
                 }
                 for &k in &order {
